@@ -319,6 +319,9 @@ type Result struct {
 	NilObject  bool
 	Val        lang.Value
 	Trace      []string
+	Globals    map[string]lang.Value // after the run (hook); nil if unavailable
+	ScopeDepth int                   // open scopes after the run (hook)
+	StackDepth int                   // entries left on the value stack (hook)
 }
 
 // Runner wraps one evaluator together with its trace recorder.
@@ -391,6 +394,12 @@ func (r *Runner) Execute(obj interface{}) (res Result) {
 			res.Panic = p
 		}
 		res.Trace = r.Trace
+		func() {
+			defer func() { _ = recover() }()
+			res.Globals, _ = r.Globals()
+			res.ScopeDepth = r.E.VerifScopeDepth()
+			res.StackDepth = r.E.VerifStackDepth()
+		}()
 	}()
 	out, err := r.E.Execute(obj)
 	if err != nil {
